@@ -85,3 +85,19 @@ func ZZ_C03_EvalVsList_ANP() {
 	vf_Assert(err == nil, "engine-built")
 	zzCheckEvalOnePair(g, pe)
 }
+
+// C02: rule order inside one policy — the first matching rule of an ANP / of the BANP decides. One admin policy
+// with two rules in one direction (every pair of actions, peers from the menu, ports: all / a symbolic range),
+// nothing else in the world.
+func ZZ_C02_RuleOrder() {
+	g := zzBaseWorld(true, true)
+	ing := vf_Choose("dir", 2) == 0
+	if vf_Choose("kind", 2) == 0 {
+		g.addANP(g.zzGenANPx("anp0", 7, ing, 2, 1, 2, 2))
+	} else {
+		g.addBANP(g.zzGenBANPx(ing, 2, 1, 2, 2))
+	}
+	pe, err := NewPolicyEngineWithObjects(g.Objs)
+	vf_Assert(err == nil, "engine-built")
+	zzCheckAllPairs(g, pe, "list-matches-admin-rule-order")
+}
